@@ -227,6 +227,16 @@ def shape_case(case):
         env = tool_env({'CC': os.path.join(BIN, 'stubcc'),
                         'AR': os.path.join(BIN, 'stubar')})
         bld = os.path.join(root, 'build')
+        # the build directory was configured before with a LONGER description
+        # of the same package (what is read back is the current one)
+        final = open(os.path.join(src, 'build.bfg')).read()
+        open(os.path.join(src, 'build.bfg'), 'w').write(final.replace(
+            "pkg_config('mypkg'", "pkg_config('mypkg', options=["
+            "'-DGOES_AWAY=%s'], link_options=['-Lgoes/away/%s']" % (
+                'y' * 300, 'z' * 300), 1))
+        run(['/venv/bin/bfg9000', 'configure', bld, '--no-resolve-packages',
+             '--backend=make', '--prefix', prefix], cwd=src, env=env)
+        open(os.path.join(src, 'build.bfg'), 'w').write(final)
         rc, out = run(['/venv/bin/bfg9000', 'configure', bld,
                        '--no-resolve-packages', '--backend=make', '--prefix',
                        prefix], cwd=src, env=env)
